@@ -4,7 +4,7 @@ import z3
 from pyvc import ext_C06
 from pyvc.ext_C06 import SymSet
 from pyvc.spec import Registry
-from pyvc.values import SArr, Sym, fresh_name, to_z3, zint
+from pyvc.values import Iter, SArr, Sym, fresh_name, to_z3, zint
 
 ext_C06.install()  # library models of this property: Python sets of ints, any / all over symbolic bool lists
 
@@ -299,6 +299,10 @@ def register_subtree(R):
 
     def list_view(L):
         """(z3 array, length) of a sequence of ints: a Python list (symbolic or concrete) or a 1-D numpy array"""
+        if isinstance(L, Iter):  # a one-shot iterator: what it still yields (nothing once it has been run through)
+            if L.consumed:
+                return z3.K(I, z3.IntVal(0)), z3.IntVal(0)
+            return list_view(L.seq)
         if isinstance(L, SArr):
             return L.arr, L.nz()
         if L.items is None:
@@ -462,6 +466,12 @@ def register_subtree(R):
             t = raw_tree(S, size=size)
             if kind == "list":
                 rem = S.plist("int", name="removals")
+            elif kind == "iter":
+                # `removals: Iterable[int]` handed over as a ONE-SHOT iterator (generator expression, iter(...), map / filter object)
+                # over an int sequence of any length: whoever runs through it first leaves it empty, a second pass yields nothing
+                seq = S.plist("int", name="removals")
+                seq.frozen = True
+                rem = Iter(seq)
             else:
                 rem = SymSet(z3.Const(fresh_name("removals_mem"), z3.ArraySort(I, z3.BoolSort())), "removals")
             rem.frozen = True  # the caller's collection of removals is an input: a store into it is a failed frame obligation
@@ -499,10 +509,12 @@ def register_subtree(R):
         return isinstance(it, ast.Name) and it.id == "removals"
 
     def ts_inv(which):
-        def f(E, v, o):
+        def f(E, v, o, entry):
             t = v["swc_like"]
             n = nof(t)
             rem = v["removals"]
+            if isinstance(rem, Iter):  # the loop walks what the iterator still held when the loop was reached
+                rem = entry["removals"]
             k = to_z3(v["_kmark"], "int")
             x, j = z3.Int(fresh_name("x")), z3.Int(fresh_name("j"))
             a = v.get(MARKS)
@@ -594,6 +606,7 @@ def register_subtree(R):
 
         return f
 
+    ONE_SHOT = "removals in a one-shot iterator"
     TS_POSTS = ["removal-closure-is-removed-or-below-a-removed-node", "survivors-are-exactly-the-nodes-outside-the-closure-in-order", "survivors-keep-every-attribute",
                 "ids-are-positions-and-parent-relation-kept", "result-shares-no-storage-with-the-input", "mapping-reported"]
     TS = dict(requires=[wf_clause(w) for w in WF] + [("removals-are-node-ids", ts_pre_removals)],
@@ -601,14 +614,15 @@ def register_subtree(R):
               ensures=[(nm, ts_post(nm)) for nm in TS_POSTS],
               loops={"marking": dict(applies=is_marking_loop, index="_kmark", invariant=[("marks-so-far", ts_inv("marks-so-far"))])})
     R.add(f"{TU}:to_subtree", prop="C06",
-          variants={"removals in a list": ts_setup("list"), "removals in a set": ts_setup("set"),
+          variants={"removals in a list": ts_setup("list"), "removals in a set": ts_setup("set"), ONE_SHOT: ts_setup("iter"),
                     "removals in a list, mapping into a list": ts_setup("list", "list"), "removals in a list, mapping into a dict": ts_setup("list", "dict")},
           **TS,
           notes="the input tree is frozen (any store into it is a failed frame obligation); removals may repeat and come in any order; "
                 "used modularly by cut_tree / CutByType / CutShortTipBranch (ghost outputs: mapping, its inverse, the removal closure)")
     # the same contract on trees of a fixed small number of rows (removals still a list / set of ANY length)
     R.add(f"{TU}:to_subtree", prop="C06",
-          variants={f"{fixed_name(m)}, removals in a {kind}": ts_setup(kind, size=m) for m in FIXED_SIZES for kind in ("list", "set")},
+          variants={f"{fixed_name(m)}, {nm}": ts_setup(kind, size=m) for m in FIXED_SIZES
+                    for kind, nm in (("list", "removals in a list"), ("set", "removals in a set"), ("iter", ONE_SHOT))},
           **TS, notes=FIXED_NOTE)
 
     # ------------------------------------------------------------------ get_subtree_impl (traverse client rule)
